@@ -625,6 +625,9 @@ func AssertHeld(m *Mutex, where string) {
 	if s == nil || s.aborted {
 		return
 	}
+	if m != nil && m.owner != s {
+		return // the lock has not been used yet in this execution: the state is not shared yet (construction)
+	}
 	if m == nil || !m.HeldByCurrent() {
 		Violationf("lock-discipline: %s entered by %s without holding the UI lock", where, s.cur.Name)
 	}
